@@ -45,7 +45,8 @@ def load_stored(prop: str) -> Dict[str, List[Dict[str, Any]]]:
             meta = json.load(open(os.path.join(d, "meta.json")))
         except Exception:
             pass
-        fire.append(dict(id="seed:" + os.path.basename(d), patch=patch, rule=None, accept_error=prop in (meta.get("analysis_errors") or {}) and prop not in (meta.get("detected_by") or {})))
+        fire.append(dict(id="seed:" + os.path.basename(d), patch=patch, rule=None, accept_error=prop in (meta.get("analysis_errors") or {}) and prop not in (meta.get("detected_by") or {}),
+                         accept_miss=prop in (meta.get("out_of_reach") or {})))
     for d in sorted(glob.glob(os.path.join(VERIF_DIR, "refactors", "C*-r*"))):
         patch = os.path.join(d, "patch.diff")
         if not os.path.exists(patch):
@@ -119,6 +120,9 @@ def _run_one(job) -> Dict[str, Any]:
                 return dict(id=variant["id"], prop=prop, kind=kind, ok=True, rules=rules)
             if code == 2 and variant.get("accept_error"):
                 return dict(id=variant["id"], prop=prop, kind=kind, ok=True, rules=["ANALYSIS-ERROR"])
+            if code == 0 and variant.get("accept_miss"):
+                # a seeded change whose effect is a statement about run-time quantities: recorded as outside the reach of the technique (meta.out_of_reach, DESIGN 7.9)
+                return dict(id=variant["id"], prop=prop, kind=kind, ok=True, rules=["RECORDED-MISS"])
             return dict(id=variant["id"], prop=prop, kind=kind, ok=False,
                         why=f"expected a violation of {want or 'any rule'}, got exit {code} rules={rules} {errtxt or ''}")
         if code == 0:
@@ -165,7 +169,8 @@ def run(props: List[str], jobs: int = 16, src_root: Optional[str] = None, verbos
     fire = [r for r in results if r["kind"] == "fire"]
     silent = [r for r in results if r["kind"] == "silent"]
     return dict(
-        must_fire=len(fire), must_fire_ok=sum(1 for r in fire if r["ok"] and not r.get("skipped")),
+        must_fire=len(fire), must_fire_ok=sum(1 for r in fire if r["ok"] and not r.get("skipped") and r.get("rules") != ["RECORDED-MISS"]),
+        recorded_misses=[f"{r['prop']} {r['id']}" for r in results if r.get("rules") == ["RECORDED-MISS"]],
         silent=len(silent), silent_ok=sum(1 for r in silent if r["ok"] and not r.get("skipped") and r.get("rules") in ([], None)),
         skipped=sum(1 for r in results if r.get("skipped")),
         undecided=[f"{r['prop']} {r['id']}" for r in results if r.get("rules") in (["UNDECIDED"], ["ANALYSIS-ERROR"])],
@@ -184,6 +189,7 @@ def annotate_evidence(prop: str, st: Dict[str, Any]):
         behaviour_preserving=st["silent"], behaviour_preserving_silent=st["silent_ok"],
         not_applicable_to_this_tree=st.get("skipped", 0), undecided=st.get("undecided", []),
         recorded_false_alarms_on_behaviour_preserving_rewrites=st.get("recorded_false_alarms", []),
+        seeded_changes_outside_the_reach_of_the_technique=st.get("recorded_misses", []),
         variants=[dict(id=r["id"], kind=r["kind"], rules=r.get("rules", []), **({"skipped": True} if r.get("skipped") else {})) for r in st["details"]],
         note="variants are text edits / stored diffs applied to a scratch copy, analysed statically, never executed; 'seed:' = sub-agent defect of this property, "
              "'refactor:' = sub-agent behaviour-preserving rewrite (must stay silent)",
